@@ -57,9 +57,50 @@ func (x *run) checkC01(obs []seen) *Failure {
 
 // ---------- C02 ----------
 
+// visibleInvs: invocations whose result reached somebody - an output was
+// returned by a successful resolution or received by a visible invocation;
+// initializer functions and singleton constructors are visible by definition.
+func (x *run) visibleInvs() map[*kit.Inv]bool {
+	vis := map[*kit.Inv]bool{}
+	var work []*kit.Inv
+	mark := func(inv *kit.Inv) {
+		if inv != nil && !vis[inv] {
+			vis[inv] = true
+			work = append(work, inv)
+		}
+	}
+	for _, o := range x.R.Obs {
+		if o.Kind == "resolve" && o.Err == nil && o.Panic == nil {
+			for _, e := range o.Entries {
+				if e != nil {
+					mark(e.Inv)
+				}
+			}
+		}
+	}
+	for _, inv := range x.W.AllInvs() {
+		if r := x.M.Regs[inv.Reg]; r != nil && (r.Form == kit.FormVoid || r.Life == kit.Singleton) {
+			mark(inv)
+		}
+	}
+	for len(work) > 0 {
+		inv := work[len(work)-1]
+		work = work[:len(work)-1]
+		for _, a := range inv.Args {
+			for _, e := range a.Entries {
+				if e != nil {
+					mark(e.Inv)
+				}
+			}
+		}
+	}
+	return vis
+}
+
 func (x *run) checkC02(obs []seen) *Failure {
 	type rs struct{ reg, scope int }
 	inst := map[rs]*kit.Inv{}
+	visible := x.visibleInvs()
 	for _, id := range x.M.Order {
 		reg := x.M.Regs[id]
 		if reg.Life != kit.Scoped || reg.Form == kit.FormInstance {
@@ -98,6 +139,11 @@ func (x *run) checkC02(obs []seen) *Failure {
 			continue
 		}
 		for _, inv := range okInvs(x.W, id) {
+			if !visible[inv] {
+				// constructed but discarded (the operation overlapped a Close and reported the
+				// disposed error): the scope did not end up with this instance
+				continue
+			}
 			k := rs{id, inv.ScopeTag}
 			if prev, dup := inst[k]; dup {
 				return fail("C02", "one-per-scope", formFeature(reg)+seqOrConc(prev, inv), "scoped r%d (%s) was constructed twice in scope s%d (invocations #%d and #%d)", id, reg, inv.ScopeTag, prev.N, inv.N)
@@ -115,6 +161,9 @@ func (x *run) checkC02(obs []seen) *Failure {
 		}
 		if s.E.ScopeTag != s.Scope {
 			return fail("C02", "not-shared", s.ViaKind+"/"+formFeature(reg), "%s (issued on s%d) yielded %v which was created in scope s%d", s.Where, s.Scope, s.E, s.E.ScopeTag)
+		}
+		if s.ByInv != nil && !visible[s.ByInv] {
+			continue // received by a constructor whose result was discarded
 		}
 		inv := inst[rs{s.Owner.Reg, s.Scope}]
 		if inv == nil || s.E != inv.Outs[s.Owner.Out] {
